@@ -113,6 +113,7 @@ def main(modname, argv):
     ap.add_argument('--replay', default=None)
     ap.add_argument('--no-shrink', action='store_true')
     ap.add_argument('--no-evidence', action='store_true')
+    ap.add_argument('--force-evidence', action='store_true', help='write evidence even when --runs/--start/--opt override the registered tier')
     ap.add_argument('--digests', default=None, help='write per-run digests to this file (determinism self-test)')
     ap.add_argument('--time-cap', type=float, default=None)
     ap.add_argument('--opt', action='append', default=[])
@@ -219,8 +220,9 @@ def main(modname, argv):
     }
     if hasattr(mod, 'extra_coverage'):
         cov.update(mod.extra_coverage(results, stats, opts))
-    if not a.no_evidence and results:
-        if len(keys) >= 2 or True:
+    overridden = a.runs is not None or a.start != 0 or a.opt or a.time_cap is not None
+    if not a.no_evidence and results and (not overridden or a.force_evidence):
+        if True:
             core.write_evidence(prop, tier, seed, mod.LEVEL, cov, wall, len(new_lines), mod.ASSUMPTIONS)
     print('DONE property=%s runs=%d evaluations=%d distinct=%d violations_new=%d known=%d harness=%d wall=%.1fs' % (
         prop, len(results), evals, len(keys), len(new_lines), len(known_lines), len(harness), wall))
